@@ -375,7 +375,9 @@ macro_rules! views_for {
                     let lmax: usize = $lmax($n);
                     for l in 0..=lmax {
                         eprint_case(<$S as AnyS>::NAME, $n, l, $lean);
-                        check_views::<$S, $n>(l, $rep);
+                        if let Err(m) = vmon::catch(std::panic::AssertUnwindSafe(|| check_views::<$S, $n>(l, $rep))) {
+                            $rep.violation("view|panic", format!("fmt {} N {} L {}: panicked: {}", <$S as AnyS>::NAME, $n, l, m), case(<$S as AnyS>::NAME, $n, l, "all"));
+                        }
                         if !$lean && (l % $n != 0 || $n >= 3) {
                             $rep.nontrivial(vmon::hash_combine(vmon::hash_str(<$S as AnyS>::NAME), ($n * 100_000 + l) as u64));
                         }
